@@ -284,6 +284,15 @@ GEO_TWEAKS = [
     ('Number of Segments', ['2\nGradients, 50, 40\nThicknesses, 1.5, 1', '2\nGradients, 50, 25\nThicknesses, 1.5, 1',
                             '2\nGradients, 50, 25\nThicknesses, 1.2, 1', '3\nGradients, 50, 40, 30\nThicknesses, 1, 0.5, 1',
                             '2\nGradients, 51.3725, 38.4145\nThicknesses, 1.23456, 1']),
+    # values written with an explicit unit other than the preferred one (converted while the input is read: whatever is
+    # converted in place and shared with a later run is converted twice)
+    ('Injection Temperature', ['120 degF', '343.15 degK']),
+    ('Reservoir Depth', ['9842.52 ft', '2800 m']),
+    ('Ambient Temperature', ['59 degF']),
+    ('Surface Temperature', ['59 degF\nInjection Temperature, 150 degF']),
+    ('Production Well Diameter', ['0.2 m', '20 cm']),
+    ('Maximum Temperature', ['752 degF']),
+    ('Production Flow Rate per Well', ['50 kg/sec\nReservoir Depth, 3.2 km']),
 ]
 
 HIP_TWEAKS = [
@@ -296,6 +305,8 @@ HIP_TWEAKS = [
     ('Reservoir Depth', ['2', '5']),
     ('Reservoir Pressure', ['30', '80']),
     ('Recoverable Fluid Factor', ['0.4', '0.6']),
+    ('Reservoir Temperature', ['392 degF', '473.15 degK']),
+    ('Reservoir Thickness', ['820 ft', '0.3 km']),
 ]
 
 GEO_POISON = [
